@@ -8,6 +8,8 @@ NOTE = ("Trusted: z3 5.1 / cvc5 1.0.3 verdicts; the pyvc executor's encoding of 
         "bs4/lxml/cssutils; floats under the standard error model (binary64, round-to-nearest, no overflow); "
         "the bounded parts are run-time contract evaluation, never counted as proof. See evidence/<id>.json.")
 CLAIMED = {
+ "C19": ("contract-based deductive verification with loop invariants (AST->SMT VCs over z3 sequences and a field-array heap; spec folds) + exhaustive bounded enumeration of small lists",
+         "P (unbounded list lengths): adjust_caption_timing maps every time to t*skew+offset, keeps exactly the non-negative starts in order, nodes untouched; merge joins all nodes separated by breaks with the first caption times/style; merge_concurrent_captions yields one merged caption per maximal run in order, inputs unmodified. B: all lists up to length 5 incl. idempotence and the two writers that use the merge", "3 C19"),
  "C12": ("contract-based deductive verification (AST->SMT VCs on the WebVTT cue-settings arithmetic and the DFXP layout/alignment attribute functions) + bounded DFXP write/read round trips",
          "P: WebVTT align/position/line/size arithmetic and order for every percentage layout with an origin (with and without fit-to-screen), verbatim cue settings, alignment external/internal identity, layout->region attributes incl. TTML padding order; B: DFXP round trip of layouts at all levels through the real parsers, cue grouping by layout", "3 C12"),
  "C13": ("contract-based deductive verification (AST->SMT VCs, float standard model, modular callee contracts) + bounded run-time contracts on the three positioning writers",
